@@ -1444,7 +1444,7 @@ func subscribeRandom(args []string) error {
 		go func(s int) {
 			defer wg.Done()
 			for i := s; i < *n; i += len(ss.ws) {
-				if atomic.LoadInt64(&hangs) >= 24 {
+				if atomic.LoadInt64(&hangs) >= 10 {
 					return // every hang costs a 10 s bound: enough of them have been recorded
 				}
 				r := rand.New(rand.NewSource(seed*2750159 + int64(i)))
